@@ -77,6 +77,12 @@ func (c *FnCtx) callCommon(call *ssa.CallCommon, v ssa.Value, pos token.Pos) []s
 	}
 	var key string
 	var con *Contract
+	if callee != nil && callee.Signature.Recv() != nil && len(args) > 0 {
+		if _, isPtr := types.Unalias(callee.Signature.Recv().Type()).Underlying().(*types.Pointer); isPtr && c.eng.ownPkgFn(callee) {
+			// methods with pointer receivers assume a non-nil receiver; checked at every static call site
+			c.safety("nil-receiver", not(eq(args[0], "0")), pos, "nil receiver passed to "+callee.Name())
+		}
+	}
 	if callee != nil {
 		key = c.eng.funcKey(callee)
 		con = c.eng.contractFor(callee)
@@ -726,6 +732,12 @@ type modSet struct {
 }
 
 func (e *Engine) modSet(fn *ssa.Function) *modSet {
+	e.modMu.Lock()
+	defer e.modMu.Unlock()
+	return e.modSetLocked(fn)
+}
+
+func (e *Engine) modSetLocked(fn *ssa.Function) *modSet {
 	if ms, ok := e.modCache[fn]; ok {
 		return ms
 	}
@@ -999,7 +1011,12 @@ func (e *Engine) callWrites(c *FnCtx, call *ssa.CallCommon, w map[string]bool) {
 		w["*"] = true
 		return
 	}
-	ms := e.modSet(callee)
+	var ms *modSet
+	if c == nil {
+		ms = e.modSetLocked(callee)
+	} else {
+		ms = e.modSet(callee)
+	}
 	if ms.all {
 		w["*"] = true
 	}
